@@ -78,7 +78,7 @@ where
         }
     }
     // ------------------------------------------------------------------ (2)-(5) methods
-    let ncases = ctx.n(600, 40000);
+    let ncases = ctx.n(600, 600000);
     for ci in 0..ncases {
         if ci % nshards as u64 != shard as u64 {
             continue;
